@@ -139,7 +139,9 @@ def ast_obligations(chk):
     fresh = fresh and "self.errors = Errors()" in finit
     chk.frame("fresh_state_per_file", fresh, {}, what="Context / File no longer create fresh history, scope, preproc, errors")
     main = repo.find_function("norminette/__main__.py:main")
-    loop = [x for x in main.node.body if isinstance(x, ast.For) and isinstance(x.iter, ast.Name) and x.iter.id == "files"]
+    # the loop(s) of main() that walk the list of files (whatever the list is called): top-level for loops
+    # over a plain name
+    loop = [x for x in main.node.body if isinstance(x, ast.For) and isinstance(x.iter, ast.Name)]
     # ... seen through helper functions defined in main() or at module level (one object per call)
     helpers = {d.name: d for d in ast.walk(repo.module("norminette/__main__.py").tree) if isinstance(d, ast.FunctionDef)}
     built = set()
